@@ -28,6 +28,16 @@
 //!    followed by valid ones, the same lane through every element type back to back, and A-B-A re-runs in `exec`.
 //!  * strictly descending runs closed by one larger element (whole lane and every aligned run of the run-merging sort); every lane
 //!    length 1..300 in trailing / inner position; ranks 6..8.
+//! Part 3 (after the fourth round of seeded changes):
+//!  * element LAYOUT: `ty` may be `L3 | L6 | L9 | L12 | L16 | L20 | L24 | L28 | L32 | L32s | L40 | L48s | L72 | L88 | L120` — tuples / nested tuples of that
+//!    many bytes (`s`: with String members, not plain-old-data), ordered lexicographically by their derived `PartialOrd`; the integer
+//!    tags 0..=255 of the lane are mapped STRICTLY MONOTONICALLY into the type (`Enc` / `spread`: mixed radix, pseudo-random low-order
+//!    components), so the model's answer on the tags is the expected answer.  `sl<k>`: Strings that share a stem of k bytes.
+//!  * value relations: all-`==` float lanes (0.0 / -0.0 in seven sign patterns) of every length, constant lanes on every type.
+//!  * GIANT arrays (> 200 000 elements, `ref` lines): the result is compared IN PLACE with the structured native reference `native_core`
+//!    (no text is built; first differing position only) — the same `native_core` whose text form is validated against the model on every
+//!    ordinary case.  One lane of 2^20+5 elements, `giant_shapes()`, more than 65 536 lanes.
+//!  * axis values that survive a narrowing cast.
 use arrharness::*;
 use std::cell::{Cell, RefCell};
 use std::panic::{catch_unwind, AssertUnwindSafe};
@@ -763,6 +773,7 @@ fn heap_ty(ty: &str) -> bool { ty.ends_with('s') || ty == "str" || ty.starts_wit
 fn gen_part3(thorough: bool, rng: &mut Rng, out: &mut dyn FnMut(String), enum_kinds: &[String], all_spellings: &[String]) {
     let keeps = ["none", "true", "false"];
     let mut k = 0usize;
+    for (have, (ty, want)) in ladder_sizes().iter().zip(LADDER.iter()) { assert_eq!(have, want, "harness: layout {ty} does not have the size its name says"); }
     let emit_all = |out: &mut dyn FnMut(String), k: usize, ty: &str, a: &str, ax: &str, model: bool, ranks: bool| {
         let sfx = if model { "" } else { " ref" };
         out(format!("tsort {ty}:b {a} {ax} {}{sfx}", enum_kinds[k % 4]));
@@ -773,7 +784,7 @@ fn gen_part3(thorough: bool, rng: &mut Rng, out: &mut dyn FnMut(String), enum_ki
         if model { out(format!("tunique {ty}:b {a} {ax}")); }
     };
     // ---- (12a) element LAYOUT: the ladder of element sizes 3, 6, 9, 12, 16, 20, 24, 28, 32 (Copy), 32 (with a String), 40, 48 (two
-    //      Strings), 72 bytes (tuples and nested tuples; tags mapped strictly monotonically, so the model's answer on the tags is the
+    //      Strings), 72, 88, 120 bytes (tuples and nested tuples; tags mapped strictly monotonically, so the model's answer on the tags is the
     //      expected answer).  Small scope: every lane over {0,1,2} of length <= 3, every permutation of 0..n for n = 3, 4 and half of
     //      n = 5 (the other half in the thorough tier) - among them every sorting permutation that is not an involution -, x 4 kinds,
     //      ranks, extremes, unique, both receivers
@@ -844,10 +855,10 @@ fn gen_part3(thorough: bool, rng: &mut Rng, out: &mut dyn FnMut(String), enum_ki
     let copy_huge: Vec<(Vec<usize>, &str)> = vec![(vec![16, 32, 40], "2"), (vec![16, 32, 40], "1"), (vec![130, 130], "0"), (vec![129, 131], "-1"), (vec![16385], "none"), (vec![2, 8200], "1"),
         (vec![3, 60, 70], "0"), (vec![33000], "0"), (vec![26, 26, 26], "1"), (vec![10, 11, 12, 13], "-2"), (vec![300, 300], "1"), (vec![8200, 2], "0")];
     let heap_huge: Vec<(Vec<usize>, &str)> = vec![(vec![70, 70], "0"), (vec![4100], "none"), (vec![16, 17, 18], "1"), (vec![70, 70], "-1"), (vec![2, 2050], "1"), (vec![4900], "0")];
-    for (ti, (ty, _)) in LADDER.iter().enumerate() {
+    for (ti, (ty, bytes)) in LADDER.iter().enumerate() {
         let pool = if heap_ty(ty) { &heap_huge } else { &copy_huge };
-        // (quick tier: two per layout, from the first six (Copy layouts) / three (String layouts) of the pool)
-        let (cnt, span) = if thorough { (pool.len(), pool.len()) } else { (2, pool.len() / 2) };
+        // (quick tier: one per layout up to 24 bytes, two above, from the first six (Copy layouts) / three (String layouts) of the pool)
+        let (cnt, span) = if thorough { (pool.len(), pool.len()) } else { (if *bytes > 24 { 2 } else { 1 }, pool.len() / 2) };
         for j in 0..cnt {
             let (s, ax) = &pool[(ti * 5 + j * 7) % span];
             k += 1;
@@ -857,8 +868,7 @@ fn gen_part3(thorough: bool, rng: &mut Rng, out: &mut dyn FnMut(String), enum_ki
             // (lanes beyond 5000 elements: 256 distinct values = long runs of repeats, on which the crate's quicksort is quadratic)
             let kinds: Vec<&String> = if lane > 5000 { enum_kinds[1..].iter().collect() } else { enum_kinds.iter().collect() };
             out(format!("tsort {ty}:b {a} {ax} {} ref", kinds[k % kinds.len()]));
-            out(format!("tsort {ty}:p {a} {ax} {} ref", kinds[(k + 1) % kinds.len()]));
-            if thorough { out(format!("tsort {ty}:r {a} {ax} {} ref", kinds[(k + 2) % kinds.len()])); }
+            if thorough { out(format!("tsort {ty}:p {a} {ax} {} ref", kinds[(k + 1) % kinds.len()])); out(format!("tsort {ty}:r {a} {ax} {} ref", kinds[(k + 2) % kinds.len()])); }
             if lane <= 300 && !heap_ty(ty) { out(format!("targsort {ty}:b {a} {ax} {} ref", enum_kinds[k % 4])); }
             if lane <= 5000 && n / lane.max(1) <= 4000 { out(format!("targmax {ty}:b {a} {ax} {} ref", keeps[k % 3])); out(format!("targmin {ty}:p {a} {ax} {} ref", keeps[(k + 1) % 3])); }
         }
@@ -955,27 +965,28 @@ fn gen_part3(thorough: bool, rng: &mut Rng, out: &mut dyn FnMut(String), enum_ki
         }
     }
     // ---- (11) GIANT arrays (more than 2^20 elements; `ref` lines, generator spelling with near-distinct values, compared IN PLACE with the
-    //      native reference): one lane of 2^20+5 elements (flat form and axis 0), the giant_shapes() of lib.rs on the axes that give at most
-    //      ~8000 lanes, and MORE THAN 65 536 LANES ([65537,2] / [2,65537] / [70001,3]; the crate's lane splitting is quadratic in the
-    //      number of lanes: seconds per call, so one or two calls each)
+    //      native reference): one lane of 2^20+5 elements (flat form and axis 0), the giant_shapes() of lib.rs on the axes that give few
+    //      lanes, and MORE THAN 65 536 LANES ([65537,1] / [1,65537] on one-byte elements)
     let top = 100_000_000i64;
     let mut giant: Vec<(Vec<usize>, &str, &str, &str, &str)> = vec![
         (vec![1 << 20 | 5], "none", "tsort", "e:Mergesort", "i64:p"), (vec![1 << 20 | 5], "0", "tsort", "e:Stable", "f64:p"), (vec![1 << 20 | 5], "none", "targmax", "none", "i64:p"),
         (vec![3, 400_001], "1", "tsort", "e:Heapsort", "i64:p"), (vec![400_001, 3], "0", "tsort", "e:Mergesort", "f64:p"),
         (vec![2, 131_073, 4], "1", "tsort", "e:Stable", "i64:p"), (vec![2, 3, 174_763], "2", "tsort", "e:Quicksort", "i64:p"),
-        // more than 65 536 lanes (the crate's cost is lanes x bytes of the array: one-byte elements in the quick tier)
-        (vec![65_537, 2], "1", "tsort", "e:Mergesort", "u8:p")];
+        // more than 65 536 lanes: the crate's cost is (number of lanes) x (bytes of the array) - 65 537 lanes of ONE one-byte element is the
+        // cheapest such array (1-2 s per call); every lane holds another value, so a wrapped lane counter / offset shows
+        (vec![65_537, 1], "1", "tsort", "e:Mergesort", "u8:p")];
+    // (every giant case has to stay below ~2 s per call: axes with more than ~600 lanes of an 8 MB array are left out -
+    //  [1031,1033], [600,2,1000] only on one-byte elements, [65,129,127], [4099,257] not at all)
     if thorough { giant.extend([
         (vec![1 << 20 | 5], "none", "tsort", "e:Heapsort", "i64:r"), (vec![1 << 20 | 5], "-1", "tsort", "e:Quicksort", "i64:p"), (vec![1 << 20 | 5], "0", "targmin", "true", "f64:p"),
-        (vec![1 << 20 | 5], "0", "tsort", "s:535441424c45", "i64:b"), (vec![2_097_153], "none", "tsort", "e:Mergesort", "i64:p"), (vec![2_097_153], "0", "tsort", "e:Stable", "f64:p"), (vec![2_097_153], "none", "targmin", "none", "i64:p"),
-        (vec![3, 400_001], "1", "tsort", "e:Stable", "i64:p"), (vec![3, 400_001], "-1", "tsort", "e:Mergesort", "f64:b"), (vec![3, 400_001], "1", "targmax", "true", "i64:p"), (vec![400_001, 3], "-2", "tsort", "e:Quicksort", "i64:p"), (vec![400_001, 3], "0", "targmax", "false", "i64:p"),
+        (vec![1 << 20 | 5], "0", "tsort", "s:535441424c45", "i64:r"), (vec![2_097_153], "none", "tsort", "e:Mergesort", "i64:p"), (vec![2_097_153], "0", "tsort", "e:Stable", "f64:p"),
+        (vec![3, 400_001], "1", "tsort", "e:Stable", "i64:p"), (vec![3, 400_001], "-1", "tsort", "e:Mergesort", "f64:r"), (vec![3, 400_001], "1", "targmax", "true", "i64:p"), (vec![400_001, 3], "-2", "tsort", "e:Quicksort", "i64:p"), (vec![400_001, 3], "0", "targmax", "false", "i64:p"),
         (vec![5, 70_000, 4], "1", "tsort", "e:Mergesort", "i64:p"), (vec![5, 70_000, 4], "-2", "targmin", "false", "f64:p"), (vec![2, 131_073, 4], "-2", "tsort", "e:Heapsort", "f64:p"), (vec![2, 131_073, 4], "1", "targmax", "none", "i64:p"),
-        (vec![2, 3, 174_763], "-1", "tsort", "e:Stable", "f64:p"), (vec![2, 3, 174_763], "2", "tsort", "e:Mergesort", "i64:p"), (vec![600, 2, 1000], "-1", "tsort", "e:Quicksort", "i64:b"), (vec![600, 2, 1000], "2", "tsort", "e:Stable", "i64:p"), (vec![600, 2, 1000], "2", "targmax", "none", "i64:p"),
-        (vec![1031, 1033], "0", "tsort", "e:Heapsort", "i64:p"), (vec![1031, 1033], "1", "tsort", "e:Quicksort", "u8:p"), (vec![1031, 1033], "-1", "targmin", "none", "i64:b"), (vec![1031, 1033], "1", "tsort", "e:Stable", "L12:p"), (vec![1031, 1033], "0", "tsort", "e:Mergesort", "L32:p"),
-        (vec![65, 129, 127], "1", "tsort", "e:Quicksort", "i64:p"), (vec![65, 129, 127], "2", "targmax", "true", "i64:p"), (vec![65, 129, 127], "-2", "tsort", "e:Mergesort", "f64:p"), (vec![65, 129, 127], "0", "tsort", "e:Stable", "i64:p"), (vec![4099, 257], "1", "tsort", "e:Heapsort", "i64:p"), (vec![4099, 257], "1", "targmin", "true", "i64:p"),
-        (vec![65_537, 2], "1", "tsort", "e:Quicksort", "i64:p"), (vec![2, 65_537], "0", "targmax", "none", "i64:p"), (vec![65_537, 2], "-1", "targsort", "e:Stable", "i64:p"), (vec![65_537, 2], "1", "targmin", "false", "f64:p"), (vec![2, 65_537], "0", "tsort", "e:Mergesort", "f64:p"),
-        (vec![70_001, 3], "1", "tsort", "e:Stable", "i64:p"), (vec![3, 70_001], "-2", "targmax", "true", "i64:p"), (vec![65_537, 1], "1", "tsort", "e:Heapsort", "i64:p"), (vec![1, 65_537], "0", "targsort", "e:Mergesort", "u8:p"),
-        (vec![65_537, 16], "1", "tsort", "e:Heapsort", "u8:p")]); }
+        (vec![2, 3, 174_763], "-1", "tsort", "e:Stable", "f64:p"), (vec![2, 3, 174_763], "2", "tsort", "e:Mergesort", "i64:p"),
+        (vec![3, 400_001], "1", "tsort", "e:Stable", "L12:p"), (vec![2, 3, 174_763], "2", "tsort", "e:Mergesort", "L32:p"), (vec![2, 131_073, 4], "1", "tsort", "e:Heapsort", "L3:p"),
+        (vec![1031, 1033], "1", "tsort", "e:Quicksort", "u8:p"), (vec![1031, 1033], "0", "tsort", "e:Stable", "u8:p"), (vec![1031, 1033], "-1", "targmin", "none", "u8:p"),
+        (vec![600, 2, 1000], "2", "tsort", "e:Stable", "u8:p"), (vec![600, 2, 1000], "-1", "targmax", "none", "u8:p"),
+        (vec![1, 65_537], "0", "tsort", "e:Heapsort", "u8:p"), (vec![65_537, 1], "1", "targmax", "none", "u8:p")]); }
     for (s, ax, op, arg, tr) in &giant {
         let (p, hi) = if tr.starts_with("u8") || tr.starts_with('L') { (0, 255) } else { (1, top) };
         out(format!("{op} {tr} G{p}.{}.{hi}:{} {ax} {arg} ref", rng.next() % 100000, show_list(s)));
@@ -1055,7 +1066,7 @@ impl Lane for String {
     fn raw(&self) -> String { format!("{self:?}") }
 }
 
-// ---------------------------------------------------------------- part 3: the element-LAYOUT ladder (`size_of::<T>()` = 3 … 72 bytes)
+// ---------------------------------------------------------------- part 3: the element-LAYOUT ladder (`size_of::<T>()` = 3 … 120 bytes)
 
 /// strictly monotonic codes: `enc` maps 0..CAP into the type preserving `<` (tuples compare lexicographically: mixed radix),
 /// `dec` is its inverse (None: not an image)
@@ -1093,7 +1104,9 @@ type L32s = Tuple2<String, i32>;              // 32, owns heap memory
 type L40 = Tuple2<L24, L16>;                  // 40
 type L48s = Tuple2<String, String>;           // 48, owns heap memory
 type L72 = Tuple3<L24, L24, L24>;             // 72
-const LADDER: [(&str, usize); 13] = [("L3", 3), ("L6", 6), ("L9", 9), ("L12", 12), ("L16", 16), ("L20", 20), ("L24", 24), ("L28", 28), ("L32", 32), ("L32s", 32), ("L40", 40), ("L48s", 48), ("L72", 72)];
+type L88 = Tuple2<L72, L16>;                  // 88
+type L120 = Tuple3<L40, L40, L40>;            // 120
+const LADDER: [(&str, usize); 15] = [("L3", 3), ("L6", 6), ("L9", 9), ("L12", 12), ("L16", 16), ("L20", 20), ("L24", 24), ("L28", 28), ("L32", 32), ("L32s", 32), ("L40", 40), ("L48s", 48), ("L72", 72), ("L88", 88), ("L120", 120)];
 macro_rules! ladder_lane { ($($t:ty),*) => { $(impl Lane for $t {
     fn from_tok(t: &str) -> Option<Self> { let k: i64 = t.parse().ok()?; if !(0..256).contains(&k) { return None; } Some(<$t as Enc>::enc(spread::<$t>(k))) }
     fn tok(&self) -> String {
@@ -1103,7 +1116,12 @@ macro_rules! ladder_lane { ($($t:ty),*) => { $(impl Lane for $t {
     }
     fn raw(&self) -> String { format!("{self:?}") }
 })* } }
-ladder_lane!(L3, L6, L9, L12, L16, L20, L24, L28, L32, L32s, L40, L48s, L72);
+ladder_lane!(L3, L6, L9, L12, L16, L20, L24, L28, L32, L32s, L40, L48s, L72, L88, L120);
+/// the layouts really have the sizes their names say (checked at the start of every `gen`)
+fn ladder_sizes() -> [usize; 15] {
+    use std::mem::size_of as sz;
+    [sz::<L3>(), sz::<L6>(), sz::<L9>(), sz::<L12>(), sz::<L16>(), sz::<L20>(), sz::<L24>(), sz::<L28>(), sz::<L32>(), sz::<L32s>(), sz::<L40>(), sz::<L48s>(), sz::<L72>(), sz::<L88>(), sz::<L120>()]
+}
 impl Lane for f64 {
     fn from_tok(t: &str) -> Option<Self> {
         Some(match t { "n" => f64::NAN, "z" => -0.0, "e" => f64::from_bits(1), "-e" => -f64::from_bits(1), "I" => f64::INFINITY, "-I" => f64::NEG_INFINITY,
@@ -1440,6 +1458,8 @@ fn typed_dispatch(op: &str, args: &[&str], expected: &str, probe: bool) -> Optio
         "L40" => typed::<L40>(op, rc, &args[1..], expected, probe),
         "L48s" => typed::<L48s>(op, rc, &args[1..], expected, probe),
         "L72" => typed::<L72>(op, rc, &args[1..], expected, probe),
+        "L88" => typed::<L88>(op, rc, &args[1..], expected, probe),
+        "L120" => typed::<L120>(op, rc, &args[1..], expected, probe),
         _ => {
             // `sl<k>`: String lanes whose members share a stem of k bytes
             let k: usize = ty.strip_prefix("sl")?.parse().ok()?;
@@ -1565,7 +1585,7 @@ fn nontrivial(op: &str, args: &[&str]) -> bool {
 }
 
 fn main() {
-    harness_main(Spec { prop: "C10", gen, exec, nontrivial, hang_secs: 60,
+    harness_main(Spec { prop: "C10", gen, exec, nontrivial, hang_secs: 120,
         rule: "exhaustive: every lane over {0,1,2} of length<=6 (7 thorough), over {0..3} of length<=4, every permutation of 0..n n<=6 (7), \
 every length 0..130 x 9 content patterns (all-equal, sorted, reversed, organ-pipe, few-distinct, random, runs, scramble, saw) \
 x 4 kinds x {enum, lower, UPPER, MiXeD, owned String} spellings x axis none / 0 / -1 on 1-D arrays, flat form on n-D shapes, \
@@ -1588,5 +1608,11 @@ Exact values: strictly descending runs closed by an element that is not smaller 
 Exact lengths: every lane length 1..300 in [2,d] (both axes) and [3,d,2] (axis 1). Ranks 6..8. \
 NATIVE REFERENCE (lane membership by coordinate arithmetic + std stable sort / rank of every element with ties in order of appearance / first extreme, first NaN wins) - compared with the model's answer on every sort / argsort / argmax / argmin case the model answers (closing refstats line: count; fails when the reference is used without >= 1000 validations in the run) and used in place of the quadratic model on `ref` cases with generator-spelled arrays: \
 [16,32,40], [4,8,16,40], [3,60,70], [26,26,26], [2,3,5,7,11,13], [130,130], [129,131], [100,200], [2,8200], [8200,2], [16385], [33000], [2,70000], [70000,2], [40,30,30], [10,11,12,13], [5,4,10,10,10], [300,300] (thorough + [70000], [140001], [7,131,151], [1,66000,2,1], [3,5,7,11,13,2]) on last and non-last axes, 4 kinds + spelled selector + both receivers, the lane lengths 49..300 of the sweep, colliding shapes above 250 elements. \
+PART 3: element LAYOUT ladder - tuples / nested tuples of 3, 6, 9, 12, 16, 20, 24, 28, 32 (plain), 32 (String member), 40, 48 (two Strings), 72, 88, 120 bytes, tags mapped strictly monotonically (lexicographic derived order), through every operation and both receivers: \
+every lane over {0,1,2} of length<=3 and every permutation of 0..n n<=5 (half of n=5 in the quick tier) x 4 kinds, random lanes of 2..130 / 257 / 528 (1030, 2100) elements, every axis of 9 n-D shapes, zero-length axes, the same lane through all 20 element types back to back, `ref` arrays of 4 900 .. 33 000 elements (contiguous and strided lanes). \
+VALUE RELATIONS: f64 lanes whose elements are all == but not bit-identical (0.0 / -0.0 in seven sign patterns) of every length 1..40, 48, 63..65, 100, 130, 257, 528, 1030 (2100, 4100), alone and with ONE differing element first / middle / last, as rows and columns, as 16 385 .. 20 480-element `ref` arrays and as one lane of 2^20+5 elements (sort: value level + multiset of bit patterns; ranks 0,1,2,..; extremes 0; unique: one zero); \
+constant lanes on every element type; String lanes whose members share a stem of 32 / 33 / 64 / 65 / 1024 bytes (one member is the stem itself). Axis values c + 2^8 / 2^16 / 2^32 / 3*2^32 and their negative twins (refused). \
+GIANT arrays (`ref`, compared in place with the same native reference, first differing position only): one lane of 2^20+5 elements (flat, axis 0; merge / stable sort, argmax), [3,400001], [400001,3], [2,131073,4], [2,3,174763], 65 537 lanes of one u8 \
+(thorough: + [2097153], [5,70000,4], all kinds, argmin, the chained receiver, 3- / 12- / 32-byte tuples on [2,131073,4] / [3,400001] / [2,3,174763], [1031,1033] and [600,2,1000] on u8, [1,65537] and [65537,1] with argmax and argsort). \
 distinct = distinct case lines; non-trivial = lane of length>=2 not already strictly increasing" });
 }
